@@ -49,6 +49,7 @@ def run(run, tier, seed, replay=None):
             files.append((name, src))
         files.append(("nested.c", NESTED))
         files.append(("foo.h", GUARD_NODEF))
+        files.append(("cmt.c", impl.HDR + "\nint\tmain(void)\t/* a */ /* b */\n{\n\treturn (0);\n}\n"))
     hist_pool = {"clean": files[0], "erroneous": files[1] if len(files) > 1 else files[0], "fatal": ("f.c", FATAL),
                  "other-type": ("o.h", "int\tf(void);\n"), "deep-if": ("d.c", DEEP_IF), "nested": ("n.c", NESTED),
                  "fatal-unrecognised": ("u.c", UNREC), "same-guard-header": ("foo.h", GUARD_OK)}
